@@ -32,6 +32,18 @@ def check_config(cfg, w, rep):
     for p in R.commits:
         check_commit_size(cfg, w, rep, prog.fns[p])
         check_commit_keeps_declared(cfg, w, rep, prog.fns[p])
+    check_commit_always_inserts(cfg, w, rep, "commit")
+    # ---- listings return what lookups return: the listing's selection and field map (C10), re-checked here ----
+    from ..framework import Report
+    from . import c10
+    sub = Report("C10")
+    c10.check_config(cfg, w, sub)
+    for (c_, rule, k, desc, ok) in sub.obligations:
+        if ok:
+            rep.ob(cfg, "listing/" + rule, k, desc)
+    for k, v in sub.violations.items():
+        rep.violation("listing:%s" % k, "a listing could return something else than the writer attached — " + v.msg, loc=v.loc, config=cfg,
+                      rule="listing/" + (v.rule or ""), witness=v.witness)
     # ---- read side: every Metadata aggregate built from a record ----
     n_md = 0
     for b in prog.bodies:
